@@ -189,6 +189,82 @@ def check(v, tier, only=None):
                 nontriv += 1
             if bad:
                 v.violation(Case(key, '// stand-alone:\n' + alone + '\n// combined:\n' + comb, {'own': 'Into(%s)' % own}, run=False, depth=2), bad)
+    # every trait educed on its own (the companions Eq / Copy / Ord without their educed partner included) next to one other trait whose FIELD attribute is written
+    # in each documented spelling (list, name-value short form, string): the other trait's attribute is none of the own trait's business.  Self-calibrating:
+    # judged only where the own trait alone and the other trait alone (with that attribute) both expand
+    if not only:
+        OTHER = {
+            'Hash': ['Hash(ignore)', 'Hash = false', 'Hash(ignore = true)', 'Hash(ignore(true))', 'Hash(method(hash_m))', 'Hash(method = "hash_m")', 'Hash = true'],
+            'Debug': ['Debug = false', 'Debug(ignore)', 'Debug = renamed', 'Debug = "renamed"', 'Debug(name = renamed)', 'Debug(name(renamed))', 'Debug(name = "renamed")', 'Debug(method(fmt_m))', 'Debug(method = "fmt_m")', 'Debug(ignore = false)'],
+            'Default': ['Default = 7', 'Default(expression = 7)', 'Default(expression(7))', 'Default = "7"', 'Default(expr = 7)', 'Default = -1', 'Default = 1.5', "Default = 'c'", 'Default = true'],
+            'PartialEq': ['PartialEq = false', 'PartialEq(ignore)', 'PartialEq(method(eq_m))', 'PartialEq(method = "eq_m")'],
+            'PartialOrd': ['PartialOrd = false', 'PartialOrd(ignore)', 'PartialOrd(rank = 2)', 'PartialOrd(rank(2))', 'PartialOrd(method(pc_m))', 'PartialOrd(method = "pc_m", rank = 1)'],
+            'Ord': ['Ord = false', 'Ord(ignore)', 'Ord(rank = 2)', 'Ord(rank(2))', 'Ord(method(c_m))'],
+            'Clone': ['Clone(method(cl_m))', 'Clone(method = "cl_m")'],
+            'Into(u8)': ['Into(u8)', 'Into(u8, method(to_m))', 'Into(u8, method = "to_m")'],
+            'Deref': ['Deref'],
+        }
+        COUPLED = [{'PartialEq', 'Eq'}, {'PartialOrd', 'Ord'}, {'Clone', 'Copy'}]
+        OWN = ['Eq', 'Copy', 'Ord', 'PartialOrd', 'Clone', 'Debug', 'Hash', 'PartialEq', 'Default']
+        cdecls = {'sn': 'struct Ty<A, B> {{ {0}a: A, {1}b: B }}', 'st': 'struct Ty<A, B>({0}A, {1}B);',
+                  'en': 'enum Ty<A, B> {{ V0({0}A, {1}B), {D}V1 {{ {1}x: B, {0}y: A }} }}', 'un': 'union Ty<A: Copy, B: Copy> {{ {0}a: A, {1}b: B }}'}
+        fam2, singles = [], {}
+
+        def single(dk, tl, mark, pos):
+            m = ['', '']
+            if mark:
+                m[pos] = '#[educe(%s)] ' % mark
+            txt = '#[derive(Educe)] #[educe(%s)] %s' % (tl, cdecls[dk].format(m[0], m[1], D='#[educe(Default)] ' if 'Default' in tl else ''))
+            singles.setdefault(txt, None)
+            return txt
+        for dk in cdecls:
+            for own in OWN:
+                for oth, forms in OTHER.items():
+                    ot = oth.split('(')[0]
+                    if ot == own or any(own in c and ot in c for c in COUPLED):
+                        continue
+                    for fi, form in enumerate(forms):
+                        for pos in (0, 1):
+                            for order in (0, 1):
+                                if (fi + pos + order) % 2 and tier == 'quick':
+                                    continue
+                                a = single(dk, own, None, 0)
+                                b = single(dk, oth, form, pos)
+                                tl = '%s, %s' % ((own, oth) if order == 0 else (oth, own))
+                                m = ['', '']
+                                m[pos] = '#[educe(%s)] ' % form
+                                comb = '#[derive(Educe)] #[educe(%s)] %s' % (tl, cdecls[dk].format(m[0], m[1], D='#[educe(Default)] ' if 'Default' in tl else ''))
+                                fam2.append(('C15|lone|%s|%s|+%s|@%d|%s' % (dk, own, form, pos, 'own-first' if order == 0 else 'own-last'), own, a, b, comb))
+        stxt = list(singles)
+        for t_, r_ in zip(stxt, xp.expand_all(binary, stxt)):
+            singles[t_] = r_
+        rc = xp.expand_all(binary, [f_[4] for f_ in fam2])
+        judged = 0
+        for (key, own, a_t, b_t, comb), r in zip(fam2, rc):
+            if hash(key) in states:
+                continue
+            states.add(hash(key))
+            total_transitions += 2
+            v.cov['evaluations'] += 1
+            a, b = singles[a_t], singles[b_t]
+            if a['st'] != 'ok' or b['st'] != 'ok':
+                continue
+            judged += 1
+            v.cov['traces_validated_against_impl'] += 1
+            path = K.TRAIT_PATH[own]
+            pick = lambda res: sorted(xp.item_key(it) for it in res.get('items', []) if it['tr'] == path or (own == 'Default' and it['tr'] in (None, '')))
+            bad = None
+            if r['st'] != 'ok':
+                bad = '%s alone expands and the other trait with this field attribute expands, but together they end as %s: %s' % (own, r['st'], r.get('msg', '')[:200])
+            elif not pick(a):
+                bad = 'the stand-alone expansion contains no impl of %s' % own
+            elif pick(a) != pick(r):
+                bad = 'the impl of %s differs when the other trait and its field attribute are present:\n alone:    %s\n combined: %s' % (own, pick(a)[:1], pick(r)[:1])
+            else:
+                nontriv += 1
+            if bad:
+                v.violation(Case(key, '// stand-alone:\n' + a_t + '\n// the other trait alone:\n' + b_t + '\n// combined:\n' + comb, {'own': own}, run=False, depth=2), bad)
+        guard(judged * 3 >= len(fam2), 'the lone-trait family judged too few states (%d of %d)' % (judged, len(fam2)))
     if not only and conf_inputs:
         conf_inputs = conf_inputs[:6000 if tier == 'quick' else 40000]
         conf_res = xp.expand_all(binary, conf_inputs)
